@@ -214,6 +214,67 @@ theorem C08_routed_rows_are_base_rows_count_partial (s : RollupShape) (q : Reque
   rw [direct_rows s.K1 (s.K2 q) (s.Kd q) [] [] s.raw out _ _ tb (by simp [RollupShape.Kd]) .count e _ rows H]
   exact (count_reaggregates e.eval _ _ _ rows).map _
 
+/-- the same with a WHERE clause over stored dimensions whose expression is the bare column of the same name (the filter
+text then means the same over the base table and over the rollup): filters on rollup columns commute with re-aggregation -/
+theorem C08_routed_rows_are_base_rows_sum_filtered_partial (s : RollupShape) (q : Requested) (e : Expr) (out : String)
+    (tb tr : Source) (hn : s.A.Nodup) (hraw : s.raw ∉ s.A) (hsel : ∀ d ∈ q.sel, d ∈ s.dims)
+    (hc : ∀ G, q.G = some G → Gen.compat G s.P = true)
+    (F : List Expr) (hF : ∀ f ∈ F, ∀ c ∈ f.cols, (c, Expr.col c) ∈ s.dims) (rows : List Row) :
+    (RQuery.body { table := tr, keys := s.K2 q, aggs := [(.agg .sum (.col s.raw), out)], filt := F }
+        (RQuery.body { table := tb, keys := s.K1, aggs := [(.agg .sum e, s.raw)] } rows)).Perm
+      (RQuery.body { table := tb, keys := s.Kd q, aggs := [(.agg .sum e, out)], filt := F } rows) := by
+  have H := readsRollup_of_shape_filtered s q hn hraw hsel (fun G hG => C09_compat_sound G s.P (hc G hG)) F hF
+    (fun g => AggFn.sum.apply (g.map e.eval)) rows
+  rw [mat_rows tb s.K1 (by simp [RollupShape.K1])]
+  rw [routed_rows s.K1 (s.K2 q) (s.Kd q) F F s.raw out _ _ tr (by simp [RollupShape.K2]) _ rows .sum H]
+  rw [direct_rows s.K1 (s.K2 q) (s.Kd q) F F s.raw out _ _ tb (by simp [RollupShape.Kd]) .sum e _ rows H]
+  exact (sum_reaggregates e.eval _ _ _ rows).map _
+
+theorem C08_routed_rows_are_base_rows_count_filtered_partial (s : RollupShape) (q : Requested) (e : Expr) (out : String)
+    (tb tr : Source) (hn : s.A.Nodup) (hraw : s.raw ∉ s.A) (hsel : ∀ d ∈ q.sel, d ∈ s.dims)
+    (hc : ∀ G, q.G = some G → Gen.compat G s.P = true)
+    (F : List Expr) (hF : ∀ f ∈ F, ∀ c ∈ f.cols, (c, Expr.col c) ∈ s.dims) (rows : List Row) :
+    (RQuery.body { table := tr, keys := s.K2 q, aggs := [(.coalesce (.agg .sum (.col s.raw)) (.lit (.num 0)), out)], filt := F }
+        (RQuery.body { table := tb, keys := s.K1, aggs := [(.agg .count e, s.raw)] } rows)).Perm
+      (RQuery.body { table := tb, keys := s.Kd q, aggs := [(.agg .count e, out)], filt := F } rows) := by
+  have H := readsRollup_of_shape_filtered s q hn hraw hsel (fun G hG => C09_compat_sound G s.P (hc G hG)) F hF
+    (fun g => AggFn.count.apply (g.map e.eval)) rows
+  rw [mat_rows tb s.K1 (by simp [RollupShape.K1])]
+  rw [routed_rows_coalesce0 s.K1 (s.K2 q) (s.Kd q) F F s.raw out _ _ tr (by simp [RollupShape.K2]) _ rows H]
+  rw [direct_rows s.K1 (s.K2 q) (s.Kd q) F F s.raw out _ _ tb (by simp [RollupShape.Kd]) .count e _ rows H]
+  exact (count_reaggregates e.eval _ _ _ rows).map _
+
+/-- (numeric measure expressions) the same for MIN and MAX: `MIN(m_raw)` over the rollup's rows of `MIN(e)` buckets -/
+theorem C08_routed_rows_are_base_rows_min_filtered_partial (s : RollupShape) (q : Requested) (e : Expr) (out : String)
+    (tb tr : Source) (hn : s.A.Nodup) (hraw : s.raw ∉ s.A) (hsel : ∀ d ∈ q.sel, d ∈ s.dims)
+    (hc : ∀ G, q.G = some G → Gen.compat G s.P = true)
+    (F : List Expr) (hF : ∀ f ∈ F, ∀ c ∈ f.cols, (c, Expr.col c) ∈ s.dims) (rows : List Row)
+    (hnum : ∀ r ∈ rows, e.eval r = .null ∨ ∃ x, e.eval r = .num x) :
+    (RQuery.body { table := tr, keys := s.K2 q, aggs := [(.agg .min (.col s.raw), out)], filt := F }
+        (RQuery.body { table := tb, keys := s.K1, aggs := [(.agg .min e, s.raw)] } rows)).Perm
+      (RQuery.body { table := tb, keys := s.Kd q, aggs := [(.agg .min e, out)], filt := F } rows) := by
+  have H := readsRollup_of_shape_filtered s q hn hraw hsel (fun G hG => C09_compat_sound G s.P (hc G hG)) F hF
+    (fun g => AggFn.min.apply (g.map e.eval)) rows
+  rw [mat_rows tb s.K1 (by simp [RollupShape.K1])]
+  rw [routed_rows s.K1 (s.K2 q) (s.Kd q) F F s.raw out _ _ tr (by simp [RollupShape.K2]) _ rows .min H]
+  rw [direct_rows s.K1 (s.K2 q) (s.Kd q) F F s.raw out _ _ tb (by simp [RollupShape.Kd]) .min e _ rows H]
+  exact (min_reaggregates e.eval _ _ _ rows hnum).map _
+
+theorem C08_routed_rows_are_base_rows_max_filtered_partial (s : RollupShape) (q : Requested) (e : Expr) (out : String)
+    (tb tr : Source) (hn : s.A.Nodup) (hraw : s.raw ∉ s.A) (hsel : ∀ d ∈ q.sel, d ∈ s.dims)
+    (hc : ∀ G, q.G = some G → Gen.compat G s.P = true)
+    (F : List Expr) (hF : ∀ f ∈ F, ∀ c ∈ f.cols, (c, Expr.col c) ∈ s.dims) (rows : List Row)
+    (hnum : ∀ r ∈ rows, e.eval r = .null ∨ ∃ x, e.eval r = .num x) :
+    (RQuery.body { table := tr, keys := s.K2 q, aggs := [(.agg .max (.col s.raw), out)], filt := F }
+        (RQuery.body { table := tb, keys := s.K1, aggs := [(.agg .max e, s.raw)] } rows)).Perm
+      (RQuery.body { table := tb, keys := s.Kd q, aggs := [(.agg .max e, out)], filt := F } rows) := by
+  have H := readsRollup_of_shape_filtered s q hn hraw hsel (fun G hG => C09_compat_sound G s.P (hc G hG)) F hF
+    (fun g => AggFn.max.apply (g.map e.eval)) rows
+  rw [mat_rows tb s.K1 (by simp [RollupShape.K1])]
+  rw [routed_rows s.K1 (s.K2 q) (s.Kd q) F F s.raw out _ _ tr (by simp [RollupShape.K2]) _ rows .max H]
+  rw [direct_rows s.K1 (s.K2 q) (s.Kd q) F F s.raw out _ _ tb (by simp [RollupShape.Kd]) .max e _ rows H]
+  exact (max_reaggregates e.eval _ _ _ rows hnum).map _
+
 /-- F9 (known finding), proved: with `AVG(x)` stored per bucket, `SUM(avg_raw) / SUM(count_raw)` is not the average
 (buckets {1, 3} and {5}: (2 + 5) / 3 vs 3) -/
 theorem C08_avg_of_bucket_averages_counterexample :
@@ -273,5 +334,36 @@ example : (routedQuery exModel exDaily { metrics := ["orders.revenue"], dims := 
   decide +kernel
 example : exShape.A.Nodup ∧ exShape.raw ∉ exShape.A ∧ (∀ d ∈ exReq.sel, d ∈ exShape.dims) ∧ Gen.compat .month .day = true := by
   decide +kernel
+
+end SideVerif
+
+namespace SideVerif
+open Sql Cal Reagg
+
+/-- the routed statement of the routing model has the key list of (3), for a query that names the rollup's time dimension
+once (at a granularity other than the rollup's) followed by stored dimensions without granularity -/
+theorem C08_routedQuery_has_shape (m : SModel) (pa : PreAgg) (q : Query) (tn gs g : String) (G : Gran) (tref : String)
+    (sel : List (String × Expr)) (refs : List String)
+    (ht : pa.timeDim = some tn) (hg : pa.gran = some gs) (hgne : g ≠ "") (hgg : (g == gs) = false) (hG : Gran.ofStr? g = some G)
+    (hparsed : q.dims.map parseDimRef = (tref, some g) :: refs.map fun r => (r, none))
+    (htref : afterFirstDot tref = tn)
+    (hrefs : refs.map afterFirstDot = sel.map (·.1))
+    (raw : String) (te : Expr) :
+    (routedQuery m pa q).keys =
+      RollupShape.K2 { ta := tn ++ "_" ++ gs, te := te, P := G, dims := [], raw := raw }
+        { G := some G, qa := tn ++ "__" ++ g, sel := sel } := by
+  have t1 : truthy (some g) = true := by simpa [truthy] using hgne
+  simp only [routedQuery, hparsed, List.map_cons, htref, ht, hg, t1, Option.getD_some, hgg, hG, RollupShape.K2,
+    List.cons.injEq, List.map_map]
+  refine ⟨by simp, ?_⟩
+  have := congrArg (List.map fun dn => (⟨.col dn, dn⟩ : Item)) hrefs
+  simp only [List.map_map] at this
+  refine Eq.trans ?_ (Eq.trans this ?_)
+  · apply List.map_congr_left
+    intro r _
+    simp [Function.comp, truthy]
+  · apply List.map_congr_left
+    intro d _
+    rfl
 
 end SideVerif
